@@ -371,6 +371,15 @@ func analyseFunc(ff *FuncFacts) {
 				if op == nil || *op == nil {
 					continue
 				}
+				// a function used as a value (passed as an argument, stored): it may be called from here on
+				if fv, ok := (*op).(*ssa.Function); ok && inModule(fv) {
+					ff.add("callees", fv.String())
+				}
+				if mc, ok := (*op).(*ssa.MakeClosure); ok {
+					if fv, ok := mc.Fn.(*ssa.Function); ok && inModule(fv) {
+						ff.add("callees", fv.String())
+					}
+				}
 				if g, ok := (*op).(*ssa.Global); ok && g.Pkg != nil && strings.HasPrefix(g.Pkg.Pkg.Path(), modPath) {
 					if st, ok := in.(*ssa.Store); ok && st.Addr == g {
 						continue
